@@ -232,6 +232,7 @@ func (pm *Manager) LoadPeerstore() (addrs []ma.Multiaddr) {
 				pm.peerstorePath,
 				err,
 			)
+			continue
 		}
 		addrs = append(addrs, addr)
 	}
